@@ -64,6 +64,14 @@ func c07Stress(c *vf.Ctx) {
 				s.set(p, 1)
 			}
 		}
+		// providers that are cached at the start and that the sources stop reporting after a few rounds: within
+		// the (one hour) time-to-live they stay cached, so no update may make them disappear
+		dormant := pool[50:54]
+		for _, p := range dormant {
+			for _, s := range srcs {
+				s.set(p, 1)
+			}
+		}
 		// delay pattern at the publication points
 		var tapHits, refreshPubs atomic.Int64
 		dr := rand.New(rand.NewSource(r.Int63()))
@@ -108,7 +116,7 @@ func c07Stress(c *vf.Ctx) {
 		stop := make(chan struct{})
 		var wg sync.WaitGroup
 		var failOnce sync.Once
-		var reads, overlapped, listChecks atomic.Int64
+		var reads, overlapped, listChecks, dormantReads atomic.Int64
 		wit := func() any {
 			return map[string]any{"population": npop, "advance_all": advanceAll, "readers": nReaders, "auto_refresh": autoRefresh, "sources": nsrc, "rounds": rounds}
 		}
@@ -191,6 +199,22 @@ func c07Stress(c *vf.Ctx) {
 							listChecks.Add(1)
 						}
 					case 3:
+						if rr.Intn(2) == 0 {
+							// a provider the sources no longer report (List only: a lookup could start a source request)
+							d := dormant[rr.Intn(len(dormant))]
+							found := false
+							for _, pi := range pc.List() {
+								if pi != nil && pi.AddrInfo.ID == d {
+									found = true
+								}
+							}
+							if !found {
+								fail("cached-provider-reported-missing", fmt.Sprintf("provider %s, cached since the start and within its time-to-live, is missing from List", d))
+								return
+							}
+							dormantReads.Add(1)
+							break
+						}
 						k := rr.Intn(npop)
 						res, err := pc.GetResults(context.Background(), stable[k], []byte("ctx"), []byte("md"))
 						if err != nil || len(res) == 0 {
@@ -227,6 +251,13 @@ func c07Stress(c *vf.Ctx) {
 		}()
 		// the writer
 		for rnd := 1; rnd <= rounds; rnd++ {
+			if rnd == 4 {
+				for _, p := range dormant {
+					for _, s := range srcs {
+						s.del(p)
+					}
+				}
+			}
 			next := append([]int(nil), cur...)
 			if advanceAll {
 				for k := range next {
@@ -272,6 +303,7 @@ func c07Stress(c *vf.Ctx) {
 		c.Add("reads", reads.Load())
 		c.Add("reads_overlapping_a_refresh", overlapped.Load())
 		c.Add("list_snapshot_checks", listChecks.Load())
+		c.Add("reads_of_cached_providers_no_longer_reported", dormantReads.Load())
 		c.Add("publications", tapHits.Load())
 		c.Add("refresh_rounds", int64(rounds))
 		c.Distinct(sub, fmt.Sprint(npop, advanceAll, nReaders, autoRefresh, nsrc))
